@@ -175,6 +175,9 @@ package html
 //@   loop * decreases len(l.r.buf) - l.r.pos
 
 //@ func Lexer.shiftRawText
+// script data inside '<!--': a '<script' tag name enters the double-escaped state, a '</script' leaves it (and ends the raw
+// text when not in that state); nothing else changes the state
+//@   loop 4 transition[F,C09] @double-escape: inScript <==> ite(prev(l.r.buf[l.r.pos]) == '<' && h#2 == Script, !isEnd, prev(inScript))
 // element names are looked up in lower case (the hash table holds lower-case names only)
 //@   callsite html.ToHash[F,C09] @lowered: forall(k, 0, len(arg0), !('A' <= arg0[k] && arg0[k] <= 'Z'))
 //@   ensures[F,C15] @err-at-nul: l.err != old(l.err) ==> l.err != nil && errOff(l.err) == l.r.pos && old(l.r.pos) <= errOff(l.err) && l.r.buf[errOff(l.err)] == 0 && errOff(l.err) < len(l.r.buf)-1
